@@ -12,20 +12,29 @@ use tlsh::{ComparisonConfiguration, FuzzyHashType, GeneratorType, HexStringPrefi
 use tlsh::hash::body::FuzzyHashBody;
 use tlsh::hash::checksum::FuzzyHashChecksum;
 
+pub const POISON: u8 = 0xAA;
+const POISON_LIMIT: usize = 64 << 20;
+
 pub struct Counting;
 pub static ALLOCS: AtomicUsize = AtomicUsize::new(0);
 
 unsafe impl GlobalAlloc for Counting {
     unsafe fn alloc(&self, l: Layout) -> *mut u8 {
         ALLOCS.fetch_add(1, Ordering::Relaxed);
-        System.alloc(l)
+        let p = System.alloc(l);
+        // memory that is not requested zeroed is handed out poisoned (0xAA): code that reads it before
+        // writing it then shows a visible, deterministic difference instead of "usually zero"
+        if !p.is_null() && l.size() <= POISON_LIMIT { std::ptr::write_bytes(p, POISON, l.size()); }
+        p
     }
     unsafe fn dealloc(&self, p: *mut u8, l: Layout) {
         System.dealloc(p, l)
     }
     unsafe fn realloc(&self, p: *mut u8, l: Layout, n: usize) -> *mut u8 {
         ALLOCS.fetch_add(1, Ordering::Relaxed);
-        System.realloc(p, l, n)
+        let q = System.realloc(p, l, n);
+        if !q.is_null() && n > l.size() && n - l.size() <= POISON_LIMIT { std::ptr::write_bytes(q.add(l.size()), POISON, n - l.size()); }
+        q
     }
     unsafe fn alloc_zeroed(&self, l: Layout) -> *mut u8 {
         ALLOCS.fetch_add(1, Ordering::Relaxed);
